@@ -218,21 +218,61 @@ Qed.
 (* the lines that ParseOPB skips *)
 
 Lemma opb_skip_filler : forall (fl : list tline) r st,
-  Forall (fun l => filler_line (tok "*") false (fst l)) fl ->
+  Forall (fun l => filler_line (tok "*") false true (fst l)) fl ->
   opb_lines (map fst fl ++ r) st = opb_lines r st.
 Proof.
   induction fl as [|[l e] fl IH]; intros r st H; [reflexivity|].
   inversion H as [|x y Hl Hr]; subst. cbn [fst] in Hl. cbn [map fst app opb_lines].
-  destruct Hl as [->|[t [_ ->]]]; [apply IH; exact Hr|].
-  cbn [tok list_ascii_of_string app]. change (Ascii.eqb "*" "*") with true. cbv iota.
-  apply IH. exact Hr.
+  destruct Hl as [Hb|[ld [t [Hld [_ [_ ->]]]]]].
+  - rewrite trim_space_blank by (apply blanks_fspace; exact Hb). apply IH; exact Hr.
+  - cbn [tok list_ascii_of_string app].
+    destruct (trim_space_head ld "*"%char (if false then match t with [] => [] | _ => SP :: t end else t)
+                (blanks_fspace ld Hld) eq_refl) as [t' Et].
+    cbv iota in Et. rewrite Et. change (Ascii.eqb "*" "*") with true. cbv iota.
+    apply IH. exact Hr.
+Qed.
+
+(* a line that strings.TrimSpace gives back, whatever blanks surround it *)
+Definition trimmed (b : bytes) : Prop :=
+  forall ld tr, forallb is_fspace ld = true -> forallb is_fspace tr = true ->
+                trim_space (ld ++ b ++ tr) = b.
+
+Lemma trimmed_intro : forall c0 r0 body x,
+  c0 :: r0 = body ++ [x] -> is_fspace c0 = false -> is_fspace x = false -> trimmed (c0 :: r0).
+Proof.
+  intros c0 r0 body x E Hc Hx ld tr Hld Htr. destruct body as [|b1 body].
+  - cbn [app] in E. injection E as -> ->. apply trim_space_single; assumption.
+  - cbn [app] in E. injection E as -> ->. apply trim_space_core; assumption.
+Qed.
+
+Lemma trimmed_self : forall b, trimmed b -> trim_space b = b.
+Proof.
+  intros b H. specialize (H [] [] eq_refl eq_refl). cbn [app] in H. rewrite app_nil_r in H. exact H.
+Qed.
+
+Lemma opb_lines_step_gen : forall ld tr c0 l r st st',
+  trimmed (c0 :: l) -> forallb is_fspace ld = true -> forallb is_fspace tr = true ->
+  Ascii.eqb c0 "*" = false ->
+  opb_line (c0 :: l) st = POk st' ->
+  opb_lines ((ld ++ (c0 :: l) ++ tr) :: r) st = opb_lines r st'.
+Proof.
+  intros ld tr c0 l r st st' Ht Hld Htr Hc H. cbn [opb_lines]. rewrite (Ht ld tr Hld Htr).
+  cbv zeta. rewrite Hc, H. reflexivity.
 Qed.
 
 Lemma opb_lines_step : forall c0 l r st st',
+  trimmed (c0 :: l) ->
   Ascii.eqb c0 "*" = false ->
   opb_line (c0 :: l) st = POk st' ->
   opb_lines ((c0 :: l) :: r) st = opb_lines r st'.
-Proof. intros c0 l r st st' Hc H. cbn [opb_lines]. rewrite Hc, H. reflexivity. Qed.
+Proof.
+  intros c0 l r st st' Ht Hc H.
+  pose proof (opb_lines_step_gen [] [] c0 l r st st' Ht eq_refl eq_refl Hc H) as E.
+  cbn [app] in E. rewrite app_nil_r in E. exact E.
+Qed.
+
+Lemma term_start_nonspace : forall c, term_start c = true -> is_fspace c = false.
+Proof. intros c H. unfold term_start in H. codes. zcases. Qed.
 
 (* ------------------------------------------------------------------ *)
 (* rendered terms *)
@@ -297,7 +337,7 @@ Proof. intros r. destruct r; split; try discriminate; reflexivity. Qed.
 Lemma render_constr_spec : forall c lay nb cs cost, wf_uc c -> 0 <= nb ->
   let b := fst (render_constr c lay) in
   clean b /\
-  (exists c0 r0, b = c0 :: r0 /\ Ascii.eqb c0 "*" = false) /\
+  (exists c0 r0, b = c0 :: r0 /\ Ascii.eqb c0 "*" = false /\ trimmed (c0 :: r0)) /\
   opb_line b (nb, cs, cost) = POk (Z.max nb (tmv (u_terms c)), cs ++ [c], cost).
 Proof.
   intros [ts r k] lay nb cs cost [Hr Hne] Hnb. cbn [u_terms u_rel u_rhs] in *.
@@ -334,14 +374,18 @@ Proof.
     apply clean_app; [apply clean_graph; apply gtok_rel_tok|].
     apply clean_app; [apply clean_blanks; exact Bs|].
     apply clean_app; [apply clean_graph; apply Gk|apply clean_blanks; exact Be].
-  - exists c0. eexists. split; [|exact Hstar]. unfold body. rewrite Efl. reflexivity.
+  - assert (Eb : body ++ tok ";" = c0 :: (tl0 ++ rel_tok r ++ s ++ ktok ++ e) ++ tok ";").
+    { unfold body. rewrite Efl. reflexivity. }
+    exists c0. eexists. split; [exact Eb|]. split; [exact Hstar|].
+    apply (trimmed_intro c0 _ body ";"%char); [symmetry; exact Eb| |reflexivity].
+    apply term_start_nonspace. exact Hc.
   - apply (opb_line_constr _ body (map fst ps) (t0 :: ts0) r ktok k); auto.
 Qed.
 
 Lemma render_min_spec : forall ts lay nb cs cost, 0 <= nb ->
   let b := fst (render_min ts lay) in
   clean b /\
-  (exists r0, b = "m"%char :: r0) /\
+  (exists r0, b = "m"%char :: r0 /\ trimmed ("m"%char :: r0)) /\
   opb_line b (nb, cs, cost) = POk (Z.max nb (tmv ts), cs, Some ts).
 Proof.
   intros ts lay nb cs cost Hnb. unfold render_min.
@@ -353,7 +397,9 @@ Proof.
   repeat split.
   - apply clean_app; [reflexivity|]. apply clean_app; [apply clean_blanks; exact Bs|].
     apply clean_app; [apply good_pairs_clean; assumption|reflexivity].
-  - eexists. reflexivity.
+  - eexists. split; [reflexivity|].
+    apply (trimmed_intro "m"%char _ (tok "min:" ++ s ++ flat ps) ";"%char); try reflexivity.
+    cbn [tok list_ascii_of_string app]. rewrite <- !app_assoc. reflexivity.
   - apply (opb_line_min _ (tok "min:" ++ s ++ flat ps) (map fst ps) ts).
     + rewrite <- !app_assoc. reflexivity.
     + rewrite fields_tok_seps by (first [exact Gs | split; [discriminate|reflexivity]]).
@@ -375,33 +421,39 @@ Proof.
   - cbn [render_constrs fst map app cs_maxvar]. rewrite app_nil_r. split; [constructor|].
     f_equal. f_equal. f_equal. lia.
   - inversion Hwf as [|x y Hc Hcs]; subst. cbn [render_constrs].
-    pose proof (gen_filler_spec (tok "*") false lay) as Hfl.
-    destruct (gen_filler (tok "*") false lay) as [fl l1]. cbn [fst] in Hfl.
-    pose proof (render_constr_spec c l1 nb acc cost Hc Hnb) as Hb.
-    destruct (render_constr c l1) as [b l2]. cbn [fst] in Hb.
-    destruct Hb as [Hclean [[c0 [r0 [Eb Hstar]]] Hline]].
-    destruct (next l2) as [e l3].
+    pose proof (gen_filler_spec (tok "*") false true lay) as Hfl.
+    destruct (gen_filler (tok "*") false true lay) as [fl l1]. cbn [fst] in Hfl.
+    pose proof (sep0_inline l1) as Hld. destruct (sep0 l1) as [ld la]. cbn [fst] in Hld.
+    pose proof (render_constr_spec c la nb acc cost Hc Hnb) as Hb.
+    destruct (render_constr c la) as [b l2]. cbn [fst] in Hb.
+    destruct Hb as [Hclean [[c0 [r0 [Eb [Hstar Htrim]]]] Hline]].
+    pose proof (sep0_inline l2) as Htr. destruct (sep0 l2) as [tr lb]. cbn [fst] in Htr.
+    destruct (next lb) as [e l3].
     specialize (IH l3 (Z.max nb (tmv (u_terms c))) (acc ++ [c]) cost r Hcs ltac:(lia)).
     destruct (render_constrs cs l3) as [rest l4]. cbn [fst] in *.
     destruct IH as [IH1 IH2]. split.
     + apply Forall_app. split.
       * apply Forall_forall. intros l Hl. rewrite Forall_forall in Hfl.
-        apply (filler_line_clean (tok "*") false); [reflexivity|apply Hfl; exact Hl].
-      * constructor; [exact Hclean|exact IH1].
+        apply (filler_line_clean (tok "*") false true); [reflexivity|apply Hfl; exact Hl].
+      * constructor; [|exact IH1]. cbn [fst].
+        apply clean_app; [apply clean_blanks; exact Hld|].
+        apply clean_app; [exact Hclean|apply clean_blanks; exact Htr].
     + rewrite map_app, <- app_assoc, opb_skip_filler by exact Hfl.
       cbn [map fst app]. rewrite Eb in Hline |- *.
-      rewrite (opb_lines_step _ _ _ _ _ Hstar Hline). etransitivity; [exact IH2|].
+      rewrite (opb_lines_step_gen ld tr c0 r0 _ _ _ Htrim (blanks_fspace _ Hld)
+                 (blanks_fspace _ Htr) Hstar Hline).
+      etransitivity; [exact IH2|].
       cbn [cs_maxvar]. rewrite <- app_assoc. cbn [app]. f_equal. f_equal. f_equal. lia.
 Qed.
 
 Definition wf_opb (P : ostate) : Prop := let '(_, cs, _) := P in Forall wf_uc cs.
 
-Lemma filler_clean_lines : forall pre spaced fl,
+Lemma filler_clean_lines : forall pre spaced leadok fl,
   forallb is_print pre = true ->
-  Forall (fun l => filler_line pre spaced (fst l)) fl -> clean_lines fl.
+  Forall (fun l => filler_line pre spaced leadok (fst l)) fl -> clean_lines fl.
 Proof.
-  intros pre spaced fl Hp H. apply Forall_forall. intros l Hl. rewrite Forall_forall in H.
-  apply (filler_line_clean pre spaced); [exact Hp|apply H; exact Hl].
+  intros pre spaced leadok fl Hp H. apply Forall_forall. intros l Hl. rewrite Forall_forall in H.
+  apply (filler_line_clean pre spaced leadok); [exact Hp|apply H; exact Hl].
 Qed.
 
 Lemma opb_header_comment_clean : forall n m, clean (opb_header_comment n m).
@@ -418,48 +470,63 @@ Theorem C13_opb_b : forall lay n cs cost,
 Proof.
   intros lay n cs cost Hwf. unfold render_opb_b.
   destruct (next lay) as [k0 la]. destruct (next la) as [e0 lb].
-  pose proof (gen_filler_spec (tok "*") false lb) as Hfl1.
-  destruct (gen_filler (tok "*") false lb) as [fl1 l1]. cbn [fst] in Hfl1.
+  pose proof (gen_filler_spec (tok "*") false true lb) as Hfl1.
+  destruct (gen_filler (tok "*") false true lb) as [fl1 l1]. cbn [fst] in Hfl1.
   set (hdr := if Nat.odd k0
               then [(opb_header_comment n (Z.of_nat (List.length cs)), Nat.odd e0)] else []).
   (* the optional "min:" line *)
   assert (Hmin : exists minl l2,
             (match cost with
              | None => ([], l1)
-             | Some ts => let (b, lc) := render_min ts l1 in
-                          let (e, ld) := next lc in ([(b, Nat.odd e)], ld)
+             | Some ts => let (ld, lc0) := sep0 l1 in
+                          let (b, lc) := render_min ts lc0 in
+                          let (tr, lc1) := sep0 lc in
+                          let (e, ld') := next lc1 in ([(ld ++ b ++ tr, Nat.odd e)], ld')
              end) = (minl, l2) /\ clean_lines minl /\
             forall r, opb_lines (map fst minl ++ r) (0, [], None)
                       = opb_lines r (cost_maxvar cost, [], cost)).
   { destruct cost as [ts|].
-    - pose proof (render_min_spec ts l1 0 [] None ltac:(lia)) as Hm.
-      destruct (render_min ts l1) as [b lc]. cbn [fst] in Hm.
-      destruct Hm as [Hc [[r0 Eb] Hl]]. destruct (next lc) as [e ld].
-      eexists. eexists. split; [reflexivity|]. split; [constructor; [exact Hc|constructor]|].
-      intros r. cbn [map fst app]. rewrite Eb in Hl |- *.
-      etransitivity; [exact (opb_lines_step "m"%char r0 r _ _ eq_refl Hl)|]. cbn [cost_maxvar].
-      pose proof (tmv_nonneg ts). f_equal. f_equal. f_equal. lia.
+    - pose proof (sep0_inline l1) as Hld. destruct (sep0 l1) as [ld lc0]. cbn [fst] in Hld.
+      pose proof (render_min_spec ts lc0 0 [] None ltac:(lia)) as Hm.
+      destruct (render_min ts lc0) as [b lc]. cbn [fst] in Hm.
+      destruct Hm as [Hc [[r0 [Eb Htrim]] Hl]].
+      pose proof (sep0_inline lc) as Htr. destruct (sep0 lc) as [tr lc1]. cbn [fst] in Htr.
+      destruct (next lc1) as [e ld'].
+      eexists. eexists. split; [reflexivity|]. split.
+      + constructor; [|constructor]. cbn [fst].
+        apply clean_app; [apply clean_blanks; exact Hld|].
+        apply clean_app; [exact Hc|apply clean_blanks; exact Htr].
+      + intros r. cbn [map fst app]. rewrite Eb in Hl |- *.
+        etransitivity; [exact (opb_lines_step_gen ld tr "m"%char r0 r _ _ Htrim
+                                 (blanks_fspace _ Hld) (blanks_fspace _ Htr) eq_refl Hl)|].
+        cbn [cost_maxvar]. pose proof (tmv_nonneg ts). f_equal. f_equal. f_equal. lia.
     - eexists. eexists. split; [reflexivity|]. split; [constructor|]. intros r. reflexivity. }
   destruct Hmin as [minl [l2 [Emin [Cmin Hmin]]]]. rewrite Emin.
   assert (Hcm : 0 <= cost_maxvar cost) by (destruct cost; [apply tmv_nonneg|simpl; lia]).
   pose proof (fun r => render_constrs_spec cs l2 (cost_maxvar cost) [] cost r Hwf Hcm) as Hbody.
   destruct (render_constrs cs l2) as [body l3]. cbn [fst] in Hbody.
-  pose proof (gen_filler_spec (tok "*") false l3) as Hfl2.
-  destruct (gen_filler (tok "*") false l3) as [fl2 l4]. cbn [fst] in Hfl2.
+  pose proof (gen_filler_spec (tok "*") false true l3) as Hfl2.
+  destruct (gen_filler (tok "*") false true l3) as [fl2 l4]. cbn [fst] in Hfl2.
   destruct (next l4) as [o l5]. intros Hshort.
   destruct (Hbody (map fst fl2)) as [Cbody Hb2].
   assert (Hclean : clean_lines (hdr ++ fl1 ++ minl ++ body ++ fl2)).
   { repeat (apply Forall_app; split).
     - unfold hdr. destruct (Nat.odd k0); [|constructor].
       constructor; [apply opb_header_comment_clean|constructor].
-    - apply (filler_clean_lines (tok "*") false); [reflexivity|exact Hfl1].
+    - apply (filler_clean_lines (tok "*") false true); [reflexivity|exact Hfl1].
     - exact Cmin.
     - exact Cbody.
-    - apply (filler_clean_lines (tok "*") false); [reflexivity|exact Hfl2]. }
+    - apply (filler_clean_lines (tok "*") false true); [reflexivity|exact Hfl2]. }
   unfold parse_opb_r. rewrite scan_lines_join by assumption.
   rewrite !map_app.
   assert (Hhdr : forall r st, opb_lines (map fst hdr ++ r) st = opb_lines r st).
-  { intros r st. unfold hdr. destruct (Nat.odd k0); reflexivity. }
+  { intros r st. unfold hdr. destruct (Nat.odd k0); [|reflexivity].
+    cbn [map fst app opb_lines]. unfold opb_header_comment. cbn [tok list_ascii_of_string app].
+    match goal with
+    | |- context [trim_space ("*"%char :: ?t)] =>
+      destruct (trim_space_head [] "*"%char t eq_refl eq_refl) as [t' Et]
+    end.
+    cbn [app] in Et. rewrite Et. reflexivity. }
   rewrite Hhdr.
   rewrite opb_skip_filler by exact Hfl1.
   rewrite Hmin.
@@ -624,7 +691,7 @@ Definition wf_item (it : go_item) : Prop := let '(ts, r, k) := it in ts <> [] /\
 
 Lemma item_line_spec : forall it nb cs cost, wf_item it -> 0 <= nb ->
   clean (item_line it) /\
-  (exists c0 r0, item_line it = c0 :: r0 /\ Ascii.eqb c0 "*" = false) /\
+  (exists c0 r0, item_line it = c0 :: r0 /\ Ascii.eqb c0 "*" = false /\ trimmed (c0 :: r0)) /\
   opb_line (item_line it) (nb, cs, cost)
   = POk (Z.max nb (tmv (u_terms (item_uc it))), cs ++ [item_uc it], cost).
 Proof.
@@ -636,10 +703,17 @@ Proof.
     apply clean_app; [reflexivity|]. apply clean_app; [apply clean_graph; apply gtok_rel_tok|].
     apply clean_app; [reflexivity|]. apply clean_app; [apply clean_graph; apply gtok_print_Zl|].
     reflexivity.
-  - destruct ts as [|t ts]; [congruence|]. rewrite cts_cons_true.
+  - destruct ts as [|t ts]; [congruence|].
     destruct (coef_tok_start false (fst t)) as [c0 [f0 [E Hc]]].
     destruct (term_start_facts c0 Hc) as [Hs _].
-    rewrite E. cbn [app]. eexists. eexists. split; [reflexivity|exact Hs].
+    set (X := (f0 ++ SP :: var_tok (snd t) ++ cost_terms_str false ts)
+              ++ SP :: rel_tok r ++ SP :: print_Zl k ++ [SP]).
+    assert (Hform : cost_terms_str true (t :: ts) ++ SP :: rel_tok r ++ SP :: print_Zl k ++ tok " ;"
+                    = (c0 :: X) ++ [";"%char]).
+    { unfold X. rewrite cts_cons_true, E. app_norm. reflexivity. }
+    exists c0, (X ++ [";"%char]). split; [exact Hform|]. split; [exact Hs|].
+    apply (trimmed_intro c0 _ (c0 :: X) ";"%char);
+      [reflexivity|apply term_start_nonspace; exact Hc|reflexivity].
   - apply (opb_line_constr _ (cost_terms_str true ts ++ SP :: rel_tok r ++ SP :: print_Zl k ++ [SP])
              (go_toks true ts) ts r (print_Zl k) k); auto.
     + app_norm. reflexivity.
@@ -660,11 +734,11 @@ Proof.
   - cbn [map app cs_maxvar]. rewrite app_nil_r. split; [constructor|].
     f_equal. f_equal. f_equal. lia.
   - inversion Hwf as [|x y Hi His]; subst.
-    destruct (item_line_spec it nb acc cost Hi Hnb) as [Hc [[c0 [r0 [E Hs]]] Hl]].
+    destruct (item_line_spec it nb acc cost Hi Hnb) as [Hc [[c0 [r0 [E [Hs Htrim]]]] Hl]].
     specialize (IH (Z.max nb (tmv (u_terms (item_uc it)))) (acc ++ [item_uc it]) cost r His ltac:(lia)).
     destruct IH as [IH1 IH2]. split; [constructor; assumption|].
     cbn [map app]. rewrite E in Hl |- *.
-    etransitivity; [exact (opb_lines_step c0 r0 _ _ _ Hs Hl)|].
+    etransitivity; [exact (opb_lines_step c0 r0 _ _ _ Htrim Hs Hl)|].
     etransitivity; [exact IH2|].
     cbn [cs_maxvar]. rewrite <- app_assoc. cbn [app]. f_equal. f_equal. f_equal. lia.
 Qed.
@@ -717,11 +791,15 @@ Qed.
 
 Lemma cost_line_spec : forall ts nb cs cost, 0 <= nb ->
   let line := tok "min: " ++ cost_terms_str true ts ++ tok " ;" in
-  clean line /\
+  clean line /\ trimmed line /\
   opb_line line (nb, cs, cost) = POk (Z.max nb (tmv ts), cs, Some ts).
 Proof.
-  intros ts nb cs cost Hnb. split.
+  intros ts nb cs cost Hnb. split; [|split].
   - apply clean_app; [reflexivity|]. apply clean_app; [apply clean_cts|reflexivity].
+  - cbn [tok list_ascii_of_string app].
+    apply (trimmed_intro "m"%char _ (tok "min: " ++ cost_terms_str true ts ++ [SP]) ";"%char);
+      try reflexivity.
+    cbn [tok list_ascii_of_string app]. rewrite <- !app_assoc. reflexivity.
   - apply (opb_line_min _ (tok "min:" ++ SP :: cost_terms_str true ts ++ [SP]) (go_toks true ts) ts).
     + app_norm. reflexivity.
     + rewrite fields_tok_sep by (first [reflexivity | split; [discriminate|reflexivity]]).
@@ -769,9 +847,9 @@ Proof.
   assert (Hcost : opb_lines (costl ++ map item_line items) (0, [], None)
                   = opb_lines (map item_line items) (cost_maxvar cost, [], cost)).
   { unfold costl. destruct cost as [ts|]; [|reflexivity].
-    destruct (cost_line_spec ts 0 [] None ltac:(lia)) as [_ Hl].
-    cbn [app]. cbn [tok list_ascii_of_string app] in Hl |- *.
-    etransitivity; [exact (opb_lines_step "m"%char _ _ _ _ eq_refl Hl)|].
+    destruct (cost_line_spec ts 0 [] None ltac:(lia)) as [_ [Htrim Hl]].
+    cbn [app]. cbn [tok list_ascii_of_string app] in Hl, Htrim |- *.
+    etransitivity; [exact (opb_lines_step "m"%char _ _ _ _ Htrim eq_refl Hl)|].
     cbn [cost_maxvar]. pose proof (tmv_nonneg ts). f_equal. f_equal. f_equal. lia. }
   rewrite Hcost. rewrite <- (app_nil_r (map item_line items)), Hrun.
   cbn [opb_lines app]. unfold opb_nbvars.
@@ -958,11 +1036,16 @@ Proof.
   assert (Hhead : opb_lines ((meta :: costl) ++ map item_line items) (0, [], None)
                   = opb_lines (map item_line items) (cost_maxvar cost, [], cost)).
   { cbn [app]. unfold meta at 1. cbn [tok list_ascii_of_string app opb_lines].
+    match goal with
+    | |- context [trim_space ("*"%char :: ?t)] =>
+      destruct (trim_space_head [] "*"%char t eq_refl eq_refl) as [t' Et]
+    end.
+    cbn [app] in Et. rewrite Et. cbv zeta.
     change (Ascii.eqb "*" "*") with true. cbv iota.
     unfold costl. destruct cost as [ts|]; [|reflexivity].
-    destruct (cost_line_spec ts 0 [] None ltac:(lia)) as [_ Hl].
-    cbn [app]. cbn [tok list_ascii_of_string app] in Hl |- *.
-    etransitivity; [exact (opb_lines_step "m"%char _ _ _ _ eq_refl Hl)|].
+    destruct (cost_line_spec ts 0 [] None ltac:(lia)) as [_ [Htrim Hl]].
+    cbn [app]. cbn [tok list_ascii_of_string app] in Hl, Htrim |- *.
+    etransitivity; [exact (opb_lines_step "m"%char _ _ _ _ Htrim eq_refl Hl)|].
     cbn [cost_maxvar]. pose proof (tmv_nonneg ts). f_equal. f_equal. f_equal. lia. }
   rewrite Hhead. rewrite <- (app_nil_r (map item_line items)), Hrun.
   cbn [opb_lines app]. unfold opb_nbvars.
